@@ -117,7 +117,7 @@ def rod_nodes(rod, q):
 
 def frame_block(rod_a, sol_a, rod_b, sol_b, R0, d):
     """max deviation of the moved problem's equilibria from the moved equilibria (positions relative to the rod length, orientations)"""
-    if len(sol_a.t) != len(sol_b.t) or not np.allclose(sol_a.t, sol_b.t, atol=1e-12):
+    if len(sol_a.t) != len(sol_b.t) or not np.allclose(sol_a.t, sol_b.t, rtol=0, atol=1e-7):
         return None
     worst = 0.0
     for qa, qb in zip(sol_a.q, sol_b.q):
@@ -180,7 +180,7 @@ def run(ctx):
         name = f"cantilever {interp}[p={degree},mixed={mixed},constraints={constraints}]"
         F = np.array([0.0, rng.choice([0.15, -0.2]), rng.choice([0.1, 0.25])]); M = np.array([rng.choice([0.0, 0.1]), 0.0, rng.choice([0.2, -0.15])])
         Q0 = np.array([rng.gauss(0, 1) for _ in range(4)]); Q0 /= np.linalg.norm(Q0)
-        R0 = rot(Q0); d = np.array([rng.uniform(-1, 1) for _ in range(3)])
+        R0 = rot(Q0); d = np.array([rng.uniform(-1, 1) for _ in range(3)]) * rng.choice([1.0, 1.0, 30.0])      # some placements far from the origin
         for solver in (["Newton", "Riks"] if (ctx.thorough or interp == "Quaternion") and constraints is None else ["Newton"]):
             where = dict(problem=name, solver=solver, tip_force=F.tolist(), tip_moment_body_fixed=M.tolist(), moved_by=dict(Q0=Q0.tolist(), d=d.tolist()))
             try:
@@ -201,7 +201,8 @@ def run(ctx):
                     add(rec, dict(where, frame=label, step=i, t=t, vals=rec["vals"]))
             if len(sol_a.t) < 2 or len(sol_b.t) < 2:
                 continue
-            dev = frame_block(rod_a, sol_a, rod_b, sol_b, R0, d) if solver == "Newton" else None
+            # (the arc-length constraint measures increments of the coordinates, whose norms a rigid motion preserves: the same points are expected)
+            dev = frame_block(rod_a, sol_a, rod_b, sol_b, R0, d)
             if dev is not None:
                 c = classify(dev, 1e-6)
                 add(dict(solver=solver, step=len(sol_a.t) - 1, tag=dict(problem=name, frame="pair"), vals={"frame": dev}, violated=["frame"] if c == "violated" else [],
